@@ -390,6 +390,44 @@ def stepC08 (ts : List String) : String :=
     "ok " ++ " ".intercalate (Generated.HeaderUpdates.allDropped.map (fun (n, l) => s!"{n}:{l.length}"))
   | _ => "bad-op"
 
+/-- split a flat list into `r` rows of `n` -/
+def toRows (n : Nat) : Nat → List Int → List (List Int)
+  | 0, _ => []
+  | r + 1, xs => xs.take n :: toRows n r (xs.drop n)
+
+def showRowsI (rows : List (List Int)) : String :=
+  s!"ok {rows.length} {(rows.getD 0 []).length} {showInts rows.flatten}".trimAsciiEnd.toString
+
+def showRowsE (r : Except Err (List (List Int))) : String :=
+  match r with | .ok rows => showRowsI rows | .error e => s!"err {e.name}"
+
+/-- `C09 op C n ndm start nsamps <ndm*C delays> <C*n data>` -/
+def stepC09 (ts : List String) : String :=
+  match ts with
+  | ["delay", dm, f, fref, tsamp] =>
+    match rat? dm, rat? f, rat? fref, rat? tsamp with
+    | some dm, some f, some fref, some tsamp => s!"ok {showRat (Dedisp.delayQ dm f fref tsamp)}"
+    | _, _, _, _ => "bad-op"
+  | op :: C :: n :: ndm :: st :: ns :: rest =>
+    match C.toNat?, n.toNat?, ndm.toNat?, st.toInt?, ns.toInt? with
+    | some C, some n, some ndm, some st, some ns =>
+      match intList? (rest.take (ndm * C)), intList? (rest.drop (ndm * C)) with
+      | some dl, some flat =>
+        if flat.length ≠ C * n then "bad-op" else
+        let arr := toRows n C flat
+        let table := toRows C ndm dl
+        let d0 := table.getD 0 []
+        if op == "roll" then showRowsI (Dedisp.blockDedisperse arr d0)
+        else if op == "valid" then showRowsE (Dedisp.blockDedisperseValid arr d0)
+        else if op == "inverse" then showRowsI (Dedisp.blockDedisperse (Dedisp.blockDedisperse arr d0) (d0.map (fun d => -d)))
+        else if op == "dmt" then showRowsI (Dedisp.dmtTransform arr table)
+        else if op == "dmtvalid" then showRowsE (Dedisp.dmtTransformValid arr table)
+        else if op == "readdedisp" then showRowsE (Dedisp.readDedispBlock arr n d0 st ns)
+        else "bad-op"
+      | _, _ => "bad-op"
+    | _, _, _, _, _ => "bad-op"
+  | _ => "bad-op"
+
 def step (line : String) : String :=
   match (line.trimAscii.toString.splitOn " ").filter (· ≠ "") with
   | "C03" :: rest => stepC03 rest
@@ -399,6 +437,7 @@ def step (line : String) : String :=
   | "C06" :: rest => stepC06 rest
   | "C07" :: rest => stepC07 rest
   | "C08" :: rest => stepC08 rest
+  | "C09" :: rest => stepC09 rest
   | "C04" :: rest => stepC04 rest
   | "C10" :: rest => stepC10 rest
   | _ => "bad-op"
